@@ -10,6 +10,8 @@ one-line compound statements, and after a PRELUDE: earlier statements that bind 
 in a scope that has ended - parameters of another def / async def / lambda, names local to a function or class body,
 comprehension variables, an `except ... as` name after its handler, a deleted name - so the names are still unbound
 at the line;
+HISTORY: an earlier Execer.compile on the same execer whose namespace bound every identifier of the line (then both
+programs run through Execer.exec with a fresh namespace and only the runs are compared);
 layout: a trailing `# comment`, an empty line in front; LINE ENDS: the whole program, bare and explicit alike, with
 CRLF line ends, as a file saved with that convention contains them).  From the SAME derivation the generator renders the bare program and its explicit
 twin (each segment wrapped in `![...]` by the generator; subproc_toks is never used to build the twin).  All
@@ -404,6 +406,8 @@ def check_pair(chain, pos, want_exec=False):
     trace-diff | ast-diff-bg (trees differ, not executable here) | internal | hang"""
     bare = gen.render(chain, pos, explicit=False)
     expl = gen.render(chain, pos, explicit=True)
+    if pos.get("history") and not gen.has_bg(chain):
+        return _check_pair_after_history(chain, pos, bare, expl)
     names = ctx_names()
     rb, nb, tb = guarded_parse(bare, names)
     re_, ne, te = guarded_parse(expl, names)
@@ -455,6 +459,32 @@ def check_pair(chain, pos, want_exec=False):
         return res
     res["trace0"] = first
     res.update(status="agree-ast" if same else "agree-trace")
+    return res
+
+
+def _check_pair_after_history(chain, pos, bare, expl):
+    """History dimension: an EARLIER Execer.compile on the same execer with a namespace that bound every identifier of
+    the line must not make the names bound now.  Both programs then go through the real Execer.exec (fresh
+    namespace); only the runs are compared (the trees are not reachable through compile)."""
+    res = {"bare": bare, "explicit": expl, "parses": [0, 0], "executed": 0}
+    g1 = dict(_globals(), **{n: 1 for n in gen.line_names(chain, pos)})
+    _CNT[0] = _WORK[0] = -(10**12)
+    try:
+        _XSH.execer.compile("pass\n", glbs=g1, locs=g1, mode="exec", filename="<c03-history>")
+    except Exception as e:  # noqa: BLE001
+        raise common.ToolError(f"history prelude compile failed: {e!r}")
+    n, diff, first = compare_runs(chain, bare, expl, full=False)
+    res["executed"] = n
+    if diff is not None:
+        sb = (diff[2]["exc"] or [None])[0] == "SyntaxError" and not diff[2]["calls"]
+        se = (diff[3]["exc"] or [None])[0] == "SyntaxError" and not diff[3]["calls"]
+        if sb != se:  # same classes as on the parse path, so that a failure that does not need the history reduces to its own key
+            res.update(status="bare-rejected" if sb else "explicit-rejected", detail="SyntaxError from Execer.exec")
+            return res
+        res.update(status="trace-diff", sub=trace_subsig(diff[2], diff[3]), rcs=diff[0], flags=diff[1], trace_bare=diff[2], trace_explicit=diff[3])
+        return res
+    res["trace0"] = first
+    res.update(status="agree-trace")
     return res
 
 
@@ -928,7 +958,7 @@ def run(ctx):
         },
         part_a_pairs=na,
         part_a_chains=len(items),
-        part_a_blocks={b["id"]: {k: b[k] for k in ("segs", "words", "kf", "kp", "rich", "exec", "prelude", "family", "fields", "eols", "argset") if k in b} for b in _BLOCKS},
+        part_a_blocks={b["id"]: {k: b[k] for k in ("segs", "words", "kf", "kp", "rich", "exec", "prelude", "family", "fields", "eols", "argset", "chainset") if k in b} for b in _BLOCKS},
         part_a_status=sta,
         part_a_program_executions=executed,
         part_a_both_rejected=sta.get("agree-rejected", 0),
